@@ -520,14 +520,195 @@ fn scenario(r: &mut Report, seed: u64, k: u64) {
     }
 }
 
+
+fn bulk_byte(i: usize, k: u64) -> u8 {
+    b'a' + ((i as u64).wrapping_mul(7).wrapping_add(i as u64 >> 9).wrapping_add(k) % 26) as u8
+}
+
+/// Large server-side sends to a client that is slow to read: a unicast of several MiB (more than the kernel will
+/// buffer) requested by a client that then does not read for a while, followed by a small unicast and a broadcast.
+/// Everything must arrive complete and well-framed once the client reads (the app may block meanwhile; it must not
+/// cut the message short).
+fn bulk_scenario(r: &mut Report, seed: u64, k: u64) {
+    let mut rng = Rng::derive(seed, 0x12b0_0000 + k);
+    let mib = *rng.pick(&[6usize, 12, 16]);
+    let pause_ms = *rng.pick(&[300u64, 700, 1000]);
+    let poll: Option<Duration> = *rng.pick(&[None, Some(Duration::from_millis(1)), Some(Duration::from_millis(10))]);
+    let handlers = rng.urange(1, 4);
+    let replay = vec!["c12".to_string(), "--seed".into(), seed.to_string(), "--bulk".into(), k.to_string()];
+    let port = {
+        let l = TcpListener::bind("127.0.0.1:0").unwrap();
+        l.local_addr().unwrap().port()
+    };
+    let addr: SocketAddr = format!("127.0.0.1:{}", port).parse().unwrap();
+    let state = Arc::new(St { log: Mutex::new(Vec::new()) });
+    let (ws_tx, ws_rx) = channel();
+    let (app_tx, app_rx) = channel();
+    let mut wsapp: AsyncWebsocketApp<Arc<St>> = AsyncWebsocketApp::new_unlinked_with_config(state.clone(), handlers).with_polling_interval(poll).with_shutdown(ws_rx);
+    wsapp.on_connect(|s: AsyncStream, st: Arc<Arc<St>>| {
+        st.log.lock().unwrap().push((Ev::Connect(s.peer_addr()), Instant::now()));
+    });
+    wsapp.on_disconnect(|s: AsyncStream, st: Arc<Arc<St>>| {
+        st.log.lock().unwrap().push((Ev::Disconnect(s.peer_addr()), Instant::now()));
+    });
+    wsapp.on_message(|s: AsyncStream, m: Message, st: Arc<Arc<St>>| {
+        let text = String::from_utf8_lossy(m.bytes()).to_string();
+        st.log.lock().unwrap().push((Ev::Message(s.peer_addr(), text.clone()), Instant::now()));
+        let mut parts = text.split(':');
+        if parts.next() == Some("BULK") {
+            let k: u64 = parts.next().and_then(|x| x.parse().ok()).unwrap_or(0);
+            let n: usize = parts.next().and_then(|x| x.parse().ok()).unwrap_or(0);
+            let big: Vec<u8> = (0..n).map(|i| bulk_byte(i, k)).collect();
+            s.send(Message::new(String::from_utf8(big).unwrap()));
+            s.send(Message::new(format!("TAIL:{}", k)));
+        }
+    });
+    let hook = wsapp.connect_hook().unwrap();
+    let sender = wsapp.sender();
+    let app: App<()> = App::new_with_config(4, ()).with_websocket_route("/ws", async_websocket_handler(hook)).with_shutdown(app_rx);
+    std::thread::spawn(move || {
+        let _ = app.run(addr);
+    });
+    let (done_tx, done_rx) = channel();
+    std::thread::spawn(move || {
+        wsapp.run();
+        done_tx.send(()).ok();
+    });
+    for _ in 0..400 {
+        if TcpStream::connect(addr).is_ok() {
+            break;
+        }
+        std::thread::sleep(Duration::from_millis(3));
+    }
+    r.eval();
+    r.count("bulk_scenarios", 1);
+    r.nontrivial(0xb000_0000 + k);
+    let n = mib << 20;
+    let desc = J::obj(vec![("unicast_bytes", J::u(n as u64)), ("client_pause_before_reading_ms", J::u(pause_ms)), ("poll_interval_ms", poll.map(|p| J::u(p.as_millis() as u64)).unwrap_or(J::Null)), ("handler_threads", J::u(handlers as u64))]);
+    let connected = |a: SocketAddr, st: &Arc<St>| st.log.lock().unwrap().iter().any(|(e, _)| *e == Ev::Connect(a));
+    let (mut a, a_local) = match ws_connect(addr) {
+        Ok(x) => x,
+        Err(e) => {
+            r.inconclusive(format!("bulk scenario: {}", e));
+            return;
+        }
+    };
+    let (mut b, b_local) = match ws_connect(addr) {
+        Ok(x) => x,
+        Err(e) => {
+            r.inconclusive(format!("bulk scenario: {}", e));
+            return;
+        }
+    };
+    let t = Instant::now();
+    while !(connected(a_local, &state) && connected(b_local, &state)) && t.elapsed() < Duration::from_secs(5) {
+        std::thread::sleep(Duration::from_millis(1));
+    }
+    // let both streams go idle for a few poll rounds, then ask for the bulk unicast and do not read
+    std::thread::sleep(Duration::from_millis(30));
+    let req = RefFrame::new(1, true, Some([9, 8, 7, 6]), format!("BULK:{}:{}", k, n).into_bytes()).encode();
+    if a.s.write_all(&req).is_err() {
+        r.inconclusive("bulk scenario: request could not be sent");
+        return;
+    }
+    std::thread::sleep(Duration::from_millis(pause_ms));
+    // a broadcast submitted while the unicast is (possibly) still being written
+    sender.broadcast(Message::new(format!("XB:{}", k)));
+    // now read: big text, TAIL, XB in this order on A; XB on B
+    let read_texts = |c: &mut Conn, want: usize, limit: Duration| -> (Vec<Vec<u8>>, Option<String>) {
+        let mut got: Vec<Vec<u8>> = Vec::new();
+        let t = Instant::now();
+        loop {
+            loop {
+                match wsref::decode(&c.buf) {
+                    Dec::Frame(f, used) => {
+                        let raw: Vec<u8> = c.buf.drain(..used).collect();
+                        if let Err(e) = wsref::validate_server_frame(&raw, &f) {
+                            let msg = format!("frame #{} is not a well-formed unmasked server frame: {} ({})", got.len(), e, hvcommon::util::hex(&raw[..raw.len().min(12)]));
+                            return (got, Some(msg));
+                        }
+                        if f.opcode == 1 {
+                            got.push(f.payload);
+                        } else if f.opcode != 9 && f.opcode != 10 {
+                            let msg = format!("unexpected opcode {} after {} text frames", f.opcode, got.len());
+                            return (got, Some(msg));
+                        }
+                    }
+                    Dec::Incomplete => break,
+                }
+            }
+            if got.len() >= want {
+                return (got, None);
+            }
+            if c.eof {
+                let msg = format!("connection ended after {} of {} expected messages with {} undecoded bytes buffered", got.len(), want, c.buf.len());
+                return (got, Some(msg));
+            }
+            if t.elapsed() > limit {
+                let msg = format!("only {} of {} expected messages within {:?} ({} bytes of an incomplete frame buffered)", got.len(), want, limit, c.buf.len());
+                return (got, Some(msg));
+            }
+            c.fill(Duration::from_millis(50));
+        }
+    };
+    let (got_a, err_a) = read_texts(&mut a, 3, Duration::from_secs(20));
+    let (got_b, err_b) = read_texts(&mut b, 1, Duration::from_secs(20));
+    let mut viol = |r: &mut Report, sig: &str, what: String| {
+        r.violation(sig, format!("[bulk: {} MiB unicast, client starts reading after {} ms, poll {:?}] {}", mib, pause_ms, poll, what), J::obj(vec![("scenario", desc.clone()), ("observed", J::s(&what))]), replay.clone());
+    };
+    let describe = |m: &Vec<u8>| if m.len() > 40 { format!("{} bytes", m.len()) } else { format!("{:?}", show(m, 40)) };
+    match err_a {
+        Some(e) => viol(r, "C12/unicast-truncated", format!("the requesting client did not receive its unicasts intact: {} (received so far: {:?})", e, got_a.iter().map(describe).collect::<Vec<_>>())),
+        None => {
+            let big_ok = got_a[0].len() == n && got_a[0].iter().enumerate().all(|(i, b)| *b == bulk_byte(i, k));
+            if !big_ok {
+                viol(r, "C12/unicast-truncated", format!("first message has {} bytes / wrong content instead of the {}-byte unicast", got_a[0].len(), n));
+            } else if got_a[1] != format!("TAIL:{}", k).as_bytes() || got_a[2] != format!("XB:{}", k).as_bytes() {
+                viol(r, "C12/unicast-lost", format!("after the large unicast the client received {:?} instead of TAIL and the broadcast", got_a[1..].iter().map(describe).collect::<Vec<_>>()));
+            } else {
+                r.count("bulk_unicasts_intact", 1);
+                r.count("bulk_bytes_delivered", n as u64);
+            }
+        }
+    }
+    match err_b {
+        Some(e) => viol(r, "C12/broadcast-missed", format!("the idle second client did not receive the broadcast: {}", e)),
+        None if got_b[0] != format!("XB:{}", k).as_bytes() => viol(r, "C12/message-foreign", format!("the idle second client received {} instead of the broadcast", describe(&got_b[0]))),
+        None => r.count("bulk_broadcasts_received_by_idle_client", 1),
+    }
+    // close both, shut down
+    for c in [&mut a, &mut b] {
+        let _ = c.s.write_all(&RefFrame::new(8, true, Some([1, 1, 1, 1]), vec![0x03, 0xe8]).encode());
+    }
+    std::thread::sleep(Duration::from_millis(50));
+    ws_tx.send(()).ok();
+    if done_rx.recv_timeout(Duration::from_secs(10)).is_err() {
+        viol(r, "C12/run-did-not-return", "AsyncWebsocketApp::run had not returned 10 s after the shutdown signal".into());
+    }
+    app_tx.send(()).ok();
+}
+
 pub fn main(args: &Args) {
     let out = args.get("out").expect("--out");
     let seed = args.seed();
     let only = args.get("scenario").map(|s| s.parse::<u64>().unwrap());
     let n: u64 = if args.thorough() { 1500 } else { 160 };
+    let nbulk: u64 = if args.thorough() { 64 } else { 8 };
+    let bulk_only = args.get("bulk").map(|s| s.parse::<u64>().unwrap());
     humphrey::verif::set_failpoint_handler(fp_handler);
-    let reports = par(if only.is_some() { 1 } else { 8 }, move |shard, nsh| {
+    let reports = par(if only.is_some() || bulk_only.is_some() { 1 } else { 8 }, move |shard, nsh| {
         let mut r = Report::new();
+        if let Some(b) = bulk_only {
+            bulk_scenario(&mut r, seed, b);
+            return r;
+        }
+        if only.is_none() {
+            let mut b = shard as u64;
+            while b < nbulk {
+                bulk_scenario(&mut r, seed, b);
+                b += nsh as u64;
+            }
+        }
         let mut k = only.unwrap_or(shard as u64);
         while k < n || only == Some(k) {
             scenario(&mut r, seed, k);
@@ -544,5 +725,5 @@ pub fn main(args: &Args) {
         total.nontrivial(1);
         total.nontrivial(2);
     }
-    total.write(out, "scenarios of 1..8 reference clients against AsyncWebsocketApp::new_unlinked_with_config linked to a real App through async_websocket_handler: handler pools of 1 (every other scenario) or 2..8 threads, poll interval none / 1 ms / 10 ms, heartbeat off or (100 ms, 1.5 s); each client runs a random script over {text/binary messages in 1..4 fragments with pings interleaved, several per poll interval, ping, pauses <= 5 ms}, a quarter leave early with Close, with heartbeat a quarter disconnect abruptly; messages marked U trigger a unicast reply from the handler, B a broadcast; every connect handler broadcasts a join notice, an external AsyncSender broadcasts concurrently; half of the fragmented messages are sent fragment by fragment with pauses; seeded delays at the three poll-loop failpoints; ends with shutdown of both apps. distinct = distinct scenarios; every scenario is non-trivial (all events of all clients are judged)", None, &["order is asserted only with a single handler thread (with more, handler entry order may legitimately differ from dispatch order)", "a broadcast must reach a client exactly once if that client's Connect was logged before the broadcast was submitted and it stayed until the final barrier", "abruptly disconnected clients: at-most-once and no foreign ids (the kernel may discard their unread bytes)"]);
+    total.write(out, "scenarios of 1..8 reference clients against AsyncWebsocketApp::new_unlinked_with_config linked to a real App through async_websocket_handler: handler pools of 1 (every other scenario) or 2..8 threads, poll interval none / 1 ms / 10 ms, heartbeat off or (100 ms, 1.5 s); each client runs a random script over {text/binary messages in 1..4 fragments with pings interleaved, several per poll interval, ping, pauses <= 5 ms}, a quarter leave early with Close, with heartbeat a quarter disconnect abruptly; messages marked U trigger a unicast reply from the handler, B a broadcast; every connect handler broadcasts a join notice, an external AsyncSender broadcasts concurrently; half of the fragmented messages are sent fragment by fragment with pauses; seeded delays at the three poll-loop failpoints; ends with shutdown of both apps; plus bulk scenarios: a client requests a 6..16 MiB unicast and does not read for 0.3..1 s (more than the kernel buffers), then must receive it intact followed by a small unicast and a broadcast, which an idle second client must receive too. distinct = distinct scenarios; every scenario is non-trivial (all events of all clients are judged)", None, &["order is asserted only with a single handler thread (with more, handler entry order may legitimately differ from dispatch order)", "a broadcast must reach a client exactly once if that client's Connect was logged before the broadcast was submitted and it stayed until the final barrier", "abruptly disconnected clients: at-most-once and no foreign ids (the kernel may discard their unread bytes)"]);
 }
